@@ -188,7 +188,6 @@ where
 
                     b'c' => {
                         self.state = ParseState::Comment;
-                        self.clause.clear();
                     }
 
                     b @ b'1'..=b'9' => {
